@@ -20,14 +20,15 @@ type Violation struct {
 }
 
 type Tuple struct {
-	Text    string       `json:"t"`
-	Doc     string       `json:"d"`
-	Pol     simrt.Policy `json:"p"`
-	OneShot bool         `json:"o,omitempty"`
-	Key     string       `json:"k"` // expected exact outcome key (C06/C07) or canonical digest (C15)
-	Mode    *Mode        `json:"m,omitempty"`
-	Exact   bool         `json:"x,omitempty"`
-	ErrAny  bool         `json:"ea,omitempty"` // C15: any error matches any error
+	Text     string       `json:"t"`
+	Doc      string       `json:"d"`
+	Pol      simrt.Policy `json:"p"`
+	OneShot  bool         `json:"o,omitempty"`
+	Key      string       `json:"k"` // expected exact outcome key (C06/C07) or canonical digest (C15)
+	Mode     *Mode        `json:"m,omitempty"`
+	Exact    bool         `json:"x,omitempty"`
+	ErrAny   bool         `json:"ea,omitempty"` // C15: any error matches any error
+	PanicAny bool         `json:"pa,omitempty"` // C15: a panic matches any failure
 }
 
 type Stats struct {
@@ -746,10 +747,11 @@ func mutateDoc(root *any, seed uint64) bool {
 // ---------------------------------------------------------------------------
 
 type c15cmp struct {
-	mode   *Mode
-	an     analysis
-	exact  bool // strict class: no enumeration anywhere
-	errAny bool
+	mode     *Mode
+	an       analysis
+	exact    bool // strict class: no enumeration anywhere
+	errAny   bool
+	panicAny bool // members are evaluated in map order somewhere: a panic matches any failure
 }
 
 func (c *c15cmp) key(o Outcome) string {
@@ -767,7 +769,26 @@ func (c *c15cmp) key(o Outcome) string {
 		// panic (a C03 matter): which one is reported is the permitted variation
 		return "fail"
 	}
+	if c.panicAny {
+		// A panic can come out of constructs that cannot report an error (on the
+		// pinned tree: a slice of a string with multi-byte characters), so the
+		// static count of fallible members does not see it. If the expression
+		// evaluates several members in map order, a panic of one member and an
+		// error of another are "several sub-expressions fail at once".
+		return "fail*"
+	}
 	return "p:" + o.Msg
+}
+
+// c15match compares two comparison keys; "fail*" matches any failure.
+func c15match(a, b string) bool {
+	if a == b {
+		return true
+	}
+	isFail := func(s string) bool {
+		return s == "fail" || s == "fail*" || strings.HasPrefix(s, "e:") || strings.HasPrefix(s, "p:")
+	}
+	return (a == "fail*" && isFail(b)) || (b == "fail*" && isFail(a))
 }
 
 func comparatorFor(spec ExprSpec) *c15cmp {
@@ -777,6 +798,7 @@ func comparatorFor(spec ExprSpec) *c15cmp {
 	}
 	c.exact = !c.an.Enum && c.mode.K == 'D'
 	c.errAny = c.an.Enum || c.an.MultiFault
+	c.panicAny = c.an.MapIter
 	return c
 }
 
@@ -915,7 +937,7 @@ func RunC15(w *Workload, st *Stats, maxYields uint64) *RunReport {
 		}
 		st.Compared++
 		a, b := cmp.key(evs[0].out), cmp.key(e.out)
-		if a != b {
+		if !c15match(a, b) {
 			rep.Viol = &Violation{Prop: "C15", Class: "order-dependence", Sig: "order-dependence",
 				Detail: fmt.Sprintf("%q (mode %s): under map order %v [%s] -> %s ; under %v [%s] -> %s", text, cmp.mode, evs[0].pol, evs[0].how, trunc(evs[0].out.Key(), 300), e.pol, e.how, trunc(e.out.Key(), 300))}
 			return rep
@@ -939,7 +961,7 @@ func RunC15(w *Workload, st *Stats, maxYields uint64) *RunReport {
 		st.NontrivTexts[hstr(0, text)] = struct{}{}
 	}
 	if cmp.mode.K != 'U' {
-		rep.Tuples = append(rep.Tuples, Tuple{Text: text, Doc: docEnc, Pol: simrt.Policy{Kind: simrt.PolNative}, OneShot: true, Key: cmp.key(evs[0].out), Mode: cmp.mode, Exact: cmp.exact, ErrAny: cmp.errAny})
+		rep.Tuples = append(rep.Tuples, Tuple{Text: text, Doc: docEnc, Pol: simrt.Policy{Kind: simrt.PolNative}, OneShot: true, Key: cmp.key(evs[0].out), Mode: cmp.mode, Exact: cmp.exact, ErrAny: cmp.errAny, PanicAny: cmp.panicAny})
 	} else {
 		rep.Tuples = append(rep.Tuples, Tuple{Text: text, Doc: docEnc, Pol: w.Policies[0], OneShot: true, Key: evs[0].out.Key()})
 	}
